@@ -128,6 +128,9 @@ func (f *fakeRT) arrive(addr, form string) (*routeRec, error) {
 	i := w.targetIdx(addr)
 	rec.Up = w.targetUp(i, simrt.Now())
 	if addr == "" || !rec.Up {
+		if d := w.P.Params["refuse_us"]; d > 0 && addr != "" {
+			simrt.Sleep(time.Duration(d) * time.Microsecond)
+		}
 		rec.Err, rec.ErrKind = rpc.ErrDial.Error(), "dial"
 		rec.EndT = simrt.Now()
 		return rec, rpc.ErrDial
@@ -579,10 +582,19 @@ func genC17(r *simrt.Rand, tier string, idx uint64) *Plan {
 	p.Params["alpha"] = []int{100, 500, 800, 950}[r.Intn(4)]
 	p.Params["dialtimeout_ms"] = 3000
 	p.Params["warmup_ms"] = 1500 // the live list is built and stable before measuring
-	p.Lists = [][]int{allTargets(nt)}
+	// some plans also configure targets that never come up: the live set stays stable, but the
+	// Client keeps probing them and rebuilding its bookkeeping
+	live := nt
+	if idx%2 == 1 {
+		for d := 0; d < 1+r.Intn(2); d++ {
+			p.Targets = append(p.Targets, TargetPlan{Up: [][2]int{{0, 0}}, Lat: [][2]int{{0, 0}}})
+		}
+	}
+	p.Params["live"] = live
+	p.Lists = [][]int{allTargets(len(p.Targets))}
 	// latency profiles that change over time; distinct values (>= 1 µs apart)
 	used := map[int]bool{}
-	for i := range p.Targets {
+	for i := range p.Targets[:live] {
 		var lat [][2]int
 		t := 0
 		for k := 0; k < 1+r.Intn(3); k++ {
@@ -618,10 +630,19 @@ func checkC17(w *World, run *simrt.Run) {
 		return
 	}
 	nt := len(w.P.Targets)
+	if l := w.P.Params["live"]; l > 0 {
+		nt = l // targets beyond the live ones never come up
+	}
 	var routes []*routeRec
 	for _, rr := range cs.routes {
 		if rr.User {
 			routes = append(routes, rr)
+		}
+	}
+	for _, rr := range routes {
+		if i := w.targetIdx(rr.Addr); i >= nt {
+			w.Violate("C17.dead-target", "routed-to-dead-target", fmt.Sprintf("%s call routed to %s, which never was live", rr.Form, rr.Addr))
+			return
 		}
 	}
 	for _, rr := range routes {
@@ -702,9 +723,36 @@ func genC18(r *simrt.Rand, tier string, idx uint64) *Plan {
 	dt := []int{50, 200, 1000, 5000}[r.Intn(4)]
 	p.Params["dialtimeout_ms"] = dt
 	p.Lists = [][]int{allTargets(nt)}
-	mode := idx % 4
+	mode := idx % 5
 	p.Params["mode"] = int(mode)
 	switch mode {
+	case 4: // swap: one target starts refusing while another, so far dead, recovers at about the same time
+		for len(p.Targets) < 3 {
+			p.Targets = append(p.Targets, TargetPlan{Up: [][2]int{{0, 1}}, Lat: [][2]int{{0, 0}}})
+		}
+		nt = len(p.Targets)
+		p.Lists = [][]int{allTargets(nt)}
+		swap := 600 + r.Intn(2000)
+		back := swap + 2500 + r.Intn(2500)
+		p.Targets[1].Up = [][2]int{{0, 1}, {swap, 0}, {back, 1}}
+		p.Targets[2].Up = [][2]int{{0, 0}, {swap - 80 + r.Intn(160), 1}}
+		if r.Chance(1, 3) {
+			// a refused probe takes a little while (the successful one is immediate)
+			p.Params["refuse_us"] = 1000 * (1 + r.Intn(40))
+		}
+		p.Params["blocking_only"] = 1
+		p.Params["warmup_ms"] = 300
+		for c := 0; c < 1+r.Intn(3); c++ {
+			cp := ClientPlan{}
+			t := 0
+			for t < back+3000 {
+				cp.Ops = append(cp.Ops, Op{Kind: []string{"call", "ctx", "ping", "stream"}[r.Intn(4)]})
+				gap := 10 + r.Intn(120)
+				cp.Ops = append(cp.Ops, Op{Kind: "sleep", N: gap * 1000})
+				t += gap
+			}
+			p.Clients = append(p.Clients, cp)
+		}
 	case 0: // failover: one target refuses for a while, another stays healthy
 		if nt < 2 {
 			nt = 2
@@ -793,52 +841,8 @@ func checkC18(w *World, run *simrt.Run) {
 		}
 	}
 	switch p.Params["mode"] {
-	case 0:
-		down := time.Duration(p.Params["down_ms"]) * time.Millisecond
-		back := time.Duration(p.Params["back_ms"]) * time.Millisecond
-		// first refused user call on target 0
-		first := time.Duration(-1)
-		for _, rr := range cs.routes {
-			if rr.User && rr.Addr == targetAddr(0) && rr.ErrKind == "dial" && rr.ArriveT >= down {
-				first = rr.ArriveT
-				break
-			}
-		}
-		if first >= 0 {
-			for _, rr := range cs.routes {
-				if rr.User && rr.Addr == targetAddr(0) && rr.ArriveT > first+bound && rr.ArriveT < back {
-					sig := "refusing-target-still-used"
-					if p.Params["blocking_only"] == 0 {
-						sig += ":async-forms-in-mix"
-					}
-					w.Violate("C18.failover", sig, fmt.Sprintf("%s call at %v still routed to %s, which has refused since %v (first refused call %v, bound %v)", rr.Form, rr.ArriveT, rr.Addr, down, first, bound))
-					break
-				}
-			}
-			w.Probe("target-refused")
-		}
-		// used again after recovery
-		usedAgain := false
-		lastUser := time.Duration(0)
-		later := 0
-		for _, rr := range cs.routes {
-			if rr.User {
-				lastUser = rr.ArriveT
-				if rr.ArriveT > back+bound {
-					later++
-				}
-				if rr.Addr == targetAddr(0) && rr.ArriveT > back && rr.Err == "" {
-					usedAgain = true
-				}
-			}
-		}
-		// only round robin promises that a live target is hit within n calls
-		if first >= 0 && !usedAgain && later >= 2*len(p.Targets) && p.Params["sched"] == 0 {
-			w.Violate("C18.recovery", "recovered-target-not-used-again", fmt.Sprintf("%s came back at %v, %d round-robin calls were routed later than the detection bound after that (until %v), none to it", targetAddr(0), back, later, lastUser))
-		}
-		if usedAgain {
-			w.Probe("target-used-again-after-recovery")
-		}
+	case 0, 4:
+		w.checkFailover(bound)
 	case 1:
 		up := time.Duration(p.Params["up_ms"]) * time.Millisecond
 		for _, r := range cs.results {
@@ -927,6 +931,73 @@ func checkC18(w *World, run *simrt.Run) {
 					w.Violate("C18.fallback", "waiter-failed-after-fallback:"+r.Form+":"+r.ErrKind, fmt.Sprintf("caller %d %s got %q", r.Caller, r.Form, r.Err))
 				} else {
 					w.Probe("released-after-fallback")
+				}
+			}
+		}
+	}
+}
+
+// checkFailover judges every down interval of every target: once a user call has been
+// refused by a target, no user call is routed to it later than the detection bound
+// (until it is back); and under RoundRobin a target that came (back) up is used again.
+func (w *World) checkFailover(bound time.Duration) {
+	cs := w.CS
+	p := w.P
+	lastUser := time.Duration(0)
+	for _, rr := range cs.routes {
+		if rr.User {
+			lastUser = rr.ArriveT
+		}
+	}
+	for ti, tp := range p.Targets {
+		addr := targetAddr(ti)
+		for k, e := range tp.Up {
+			from := time.Duration(e[0]) * time.Millisecond
+			until := time.Duration(1<<62 - 1)
+			if k+1 < len(tp.Up) {
+				until = time.Duration(tp.Up[k+1][0]) * time.Millisecond
+			}
+			if e[1] == 0 {
+				// down in [from, until)
+				first := time.Duration(-1)
+				for _, rr := range cs.routes {
+					if rr.User && rr.Addr == addr && rr.ErrKind == "dial" && rr.ArriveT >= from && rr.ArriveT < until {
+						first = rr.ArriveT
+						break
+					}
+				}
+				if first < 0 {
+					continue
+				}
+				w.Probe("target-refused")
+				for _, rr := range cs.routes {
+					if rr.User && rr.Addr == addr && rr.ArriveT > first+bound && rr.ArriveT < until {
+						sig := "refusing-target-still-used"
+						if p.Params["blocking_only"] == 0 && p.Params["mode"] == 0 {
+							sig += ":async-forms-in-mix"
+						}
+						w.Violate("C18.failover", sig, fmt.Sprintf("%s call at %v still routed to %s, which has refused since %v (first refused call %v, bound %v)", rr.Form, rr.ArriveT, rr.Addr, from, first, bound))
+						break
+					}
+				}
+			} else if from > 0 && p.Params["sched"] == 0 {
+				// (back) up at `from`: round robin must use it again
+				used, later := false, 0
+				for _, rr := range cs.routes {
+					if !rr.User || rr.ArriveT >= until {
+						continue
+					}
+					if rr.ArriveT > from+bound {
+						later++
+					}
+					if rr.Addr == addr && rr.ArriveT > from && rr.Err == "" {
+						used = true
+					}
+				}
+				if used {
+					w.Probe("target-used-again-after-recovery")
+				} else if later >= 2*len(p.Targets)+2 {
+					w.Violate("C18.recovery", "recovered-target-not-used-again", fmt.Sprintf("%s came up at %v, %d round-robin calls were routed later than the detection bound after that (until %v), none to it", addr, from, later, lastUser))
 				}
 			}
 		}
